@@ -30,7 +30,7 @@ META = {
 def run(ctx):
     C.build_harness("dl-c12")
     proofs_ok = C.proof_gate(ctx)
-    n = 800 if ctx.tier == "quick" else 20000
+    n = 800 if ctx.tier == "quick" else 8000
     out = C.harness("dl-c12", ["fuzz", "--seed", str(ctx.seed), "--n", str(n)], timeout=3000)
     findings, stats = [], {}
     for line in out.splitlines():
